@@ -1,5 +1,6 @@
 import AlatorVerif.Lemmas.UistProps
 import AlatorVerif.Lemmas.JuraDead
+import AlatorVerif.Lemmas.JuraConserve
 /-!
 # C03 — orders fill at most once; none is lost, duplicated or resurrected (both exchanges)
 
@@ -122,6 +123,39 @@ theorem jura_removed_is_spent (ops : List (JOp α)) (quotes : Nat → Option (Qu
     (o : Inner α) (ho : o ∈ (jrun ({} : Jura α) ops).book.inner) (hdel : (after quotes o).2 = true) :
     Spent ((jrun ({} : Jura α) ops).tick quotes adm).1.book o.id :=
   spent_after_tick (PJ.reachable_inv ops) quotes adm o ho (Or.inl hdel)
+
+/-- **Jura conservation over every history**, as one statement: after any sequence of insert / delete /
+    tick (any asset and id arguments, any quotes, any admission orders) every id handed out so far —
+    to admitted orders and to the children of fired triggers — is in exactly one of: filled, gone
+    without a fill on leaving (cancelled, an IOC order dropped after its one attempt, a fired trigger),
+    still resting. `filled` is not a bookkeeping device: it is the list of order ids of the fills the
+    ticks actually reported, in order. -/
+theorem jura_conservation (ops : List (JOp α)) :
+    let r := gjrun ({} : Jura α) {} ops
+    r.1 = jrun {} ops
+    ∧ r.2.filled = (jfills ({} : Jura α) ops).map (·.oid)
+    ∧ (r.2.filled ++ r.2.gone ++ jids r.1.book.inner).Perm (List.range r.1.book.last) := by
+  intro r
+  have h0 : JConserved ({} : Jura α) {} := ⟨⟨List.Pairwise.nil, fun _ h => by cases h⟩, fun x => by simp [jids]⟩
+  refine ⟨gjrun_state ops _ _, ?_, List.perm_iff_count.mpr (gjrun_conserved ops _ _ h0).2⟩
+  have := gjrun_filled ops ({} : Jura α) {} h0.1
+  simpa using this
+
+/-- consequently no id fills twice over the whole history, none fills after it was cancelled, dropped or
+    fired, and a filled id is no longer resting -/
+theorem jura_no_double_fill (ops : List (JOp α)) :
+    ((jfills ({} : Jura α) ops).map (·.oid)).Nodup
+    ∧ ∀ i ∈ (jfills ({} : Jura α) ops).map (·.oid),
+        i ∉ (gjrun ({} : Jura α) {} ops).2.gone ∧ i ∉ jids (jrun ({} : Jura α) ops).book.inner := by
+  obtain ⟨h1, h2, h3⟩ := jura_conservation ops
+  have hnd := h3.nodup_iff.mpr List.nodup_range
+  rw [h2, h1] at hnd
+  rw [List.append_assoc, List.nodup_append] at hnd
+  refine ⟨hnd.1, fun i hi => ?_⟩
+  have := hnd.2.2 i hi
+  constructor
+  · intro hg; exact this i (List.mem_append_left _ hg) rfl
+  · intro hr; exact this i (List.mem_append_right _ hr) rfl
 end Jura
 
 /-! non-vacuity: a concrete Uist history with a fill, a cancellation and a stale cancellation -/
